@@ -188,6 +188,7 @@ func specSameQuota(ue *chf_context.ChfUe, old map[int32]int64) bool {
 //@   entry
 //@   requires [C10] SpecSeqOK()
 //@   requires cgf.SpecReady()
+//@   requires [C20] factory.SpecValidated(factory.ChfConfig)
 //@   ensures (result0 != nil) == (result2 == nil)
 //@   ensures result2 != nil ==> result2.Status >= 400 && result2.Status < 500 && result1 == ""
 //@   ensures [C12] result0 != nil ==> result0.InvocationSequenceNumber == chargingData.InvocationSequenceNumber && result0.InvocationTimeStamp != nil
@@ -349,6 +350,7 @@ var ghostHttpWrites int
 //@   entry
 //@   requires [C10] SpecSeqOK()
 //@   requires cgf.SpecReady()
+//@   requires [C20] factory.SpecValidated(factory.ChfConfig)
 //@   inline-calls (*Processor).ChargingDataCreate
 //@   modifies-anything
 //@   requires c != nil && ghostHttpWrites >= 0 && ghostHttpWrites < 1<<40
